@@ -229,7 +229,7 @@ def r5_edits(rep, src, tier='quick'):
                         it.call(H.Closure(fn.node, {}, view, fn.cls), [H.Key(target, target)])
                     else:
                         fn = heap.module.method(CLS, 'iter_value_references')
-                        refs = it.call(H.Closure(fn.node, {}, view, fn.cls), [])
+                        refs = it.seq(it.call(H.Closure(fn.node, {}, view, fn.cls), []))
                         r = refs[i]
                         rf = heap.module.method('ValueReference', 'remove')
                         it.call(H.Closure(rf.node, {}, r, rf.cls), [])
@@ -356,7 +356,7 @@ def r5_edits(rep, src, tier='quick'):
         it = H.Interp(heap)
         fn = heap.module.method(CLS, 'iter_value_references')
         try:
-            refs = it.call(H.Closure(fn.node, {}, view, fn.cls), [])
+            refs = it.seq(it.call(H.Closure(fn.node, {}, view, fn.cls), []))
             setters = [f for q, f in src.mod(PM).funcs.items() if q.startswith('ValueReference.value') and len(f.params()) == 2]
             it.call(H.Closure(setters[0].node, {}, refs[-1], 'ValueReference'), [H.Key('new', 'new')])
             got, kinds, problems = read_values(heap, lst)
@@ -1088,6 +1088,92 @@ def r8b_value_texts(rep, src):
                     order[k_], got[k_], [t_ for _c, t_ in lay], want[k_], 'the texts of all tokens' if order[k_] == 'convert_to_text' else 'the texts of the tokens that are not comment tokens'))
 
 
+def r10_value_factory(rep, src):
+    """what turns the text of an appended / replacing value into a value element (the factory the list view is given in its
+    constructor) interpreted (sa.heap) with a model parser that cuts a text as the statement defines it -- maximal runs of
+    non-whitespace for the whitespace list, trimmed pieces between commas for the comma list: a text is taken exactly when it is one
+    value and nothing else, and the element it becomes has that text; every other text is refused with ValueError.  (That the real
+    tokenizers cut this way is C11.R3.)"""
+    import re as _re
+    mod = src.mod(PM)
+    init = mod.method(CLS, '__init__')
+    if init is None:
+        raise AnalysisError('%s:%s.__init__ not found' % (PM, CLS))
+    rep.saw_func(init)
+    call = None
+    for st in ast.walk(init.node):
+        if isinstance(st, ast.Assign) and len(st.targets) == 1 and norm(st.targets[0]) == 'self._value_factory':
+            call = st.value
+    if not isinstance(call, ast.Call):
+        raise AnalysisError('%s: the value factory of the view is not built by a call in the constructor' % init.site)
+    argnames = [norm(a_) for a_ in call.args] + [norm(k_.value) for k_ in call.keywords]
+    params = init.params()
+    pname = next((a_ for a_ in argnames if 'parser' in a_ and a_ in params), None)
+    tname = next((a_ for a_ in argnames if a_ in params and a_ != pname), None)
+    if pname is None or tname is None:
+        raise AnalysisError('%s: the factory is built from %s: parser / value type not recognised' % (init.site, argnames))
+
+    def model(kind, v):
+        out = []
+        if kind == 'ws':
+            for m_ in _re.finditer(r'\s+|\S+', v):
+                out.append((not m_.group().isspace(), m_.group()))
+        else:
+            for i, piece in enumerate(v.split(',')):
+                if i:
+                    out.append((False, ','))
+                m_ = _re.fullmatch(r'(\s*)(.*?)(\s*)', piece, _re.S)
+                for j, g_ in enumerate(m_.groups()):
+                    if g_:
+                        out.append((j == 1, g_))
+        return out
+
+    def run(kind, v):
+        def parser(it, a, k):
+            return it.h.new_list([it.h.alloc('Deb822ParsedValueElement' if isval else 'Deb822WhitespaceToken', {'#text': text}) for isval, text in model(kind, a[0])])
+
+        def conv(it, a, k):
+            o = it.h.objs[a[0].name]
+            if '#text' in o:
+                return o['#text']
+            m_ = it.h.module.method(o['__class__'], 'convert_to_text')
+            if m_ is None:
+                raise AnalysisError('convert_to_text of a %s' % o['__class__'])
+            return it.call(H.Closure(m_.node, {}, a[0], m_.cls), [])
+        heap = H.Heap(mod, extra_modules=[src.mod('_util'), src.mod(TK), src.mod('_deb822_repro._util')],
+                      hooks={'modelparser': parser, '.convert_to_text': conv, 'sys.intern': lambda it_, a, k: a[0], '._init_parent_of_parts': lambda it_, a, k: None,
+                             'textwrap.dedent': lambda it_, a, k: a[0]})
+        it = H.Interp(heap)
+        fac = it.ev(call, {pname: ('hook', 'modelparser'), tname: ('class', 'Deb822ParsedValueElement')}, CLS)
+        try:
+            r = it.apply(fac, [v])
+        except H.Raised as x:
+            return 'raises ' + x.exc
+        if not isinstance(r, H.Ref):
+            return 'gives %r' % (r,)
+        return ('element', heap.objs[r.name]['__class__'], conv(it, [r], {}))
+    CANDS = ['a', 'b-1', 'a b', ' a', 'a ', 'a,b', 'a, b', ',a', 'a,', '', ' ', '\t', 'a\tb', 'linux any', 'a (>= 1.0)', 'x32 arm64', '[!i386]', 'é']
+    n = 0
+    for kind, label in (('ws', 'whitespace-separated list'), ('comma', 'comma-separated list')):
+        bad = None
+        for v in CANDS:
+            got = run(kind, v)
+            one = model(kind, v) == [(True, v)]
+            n += 1
+            if one and got != ('element', 'Deb822ParsedValueElement', v):
+                bad = bad or 'the text %r is one value of a %s; the factory %s' % (v, label, got if isinstance(got, str) else 'gives %r' % (got,))
+            elif not one and got != 'raises ValueError':
+                bad = bad or ('the text %r is not one value of a %s (it reads as %r); the factory %s: append(%r) / replace(..., %r) / a value reference set to it puts ONE item into '
+                              'the view while the written field re-parses to what the text reads as' % (
+                                  v, label, [t_ for ok_, t_ in model(kind, v) if ok_], 'accepts it as %r' % (got,) if not isinstance(got, str) else got, v, v))
+        what = 'the value factory takes exactly the texts that are one value (%s)' % label
+        if bad:
+            rep.fail('C11.R10', PM + ':' + norm(call.func), what, bad, where='%s:%d' % (mod.relpath, call.lineno))
+        else:
+            rep.ok('C11.R10', PM + ':' + norm(call.func), what, '%d texts' % len(CANDS))
+    rep.analysed['paths'] += n
+
+
 def check(src, rep, tier):
     rep.explanation = ('C11: (R1) call-graph effect analysis in Deb822ParsedTokenList: methods that (transitively) mutate the token list must '
                        '(transitively) store _changed = True, read accessors must do neither, _update_field is called only from __exit__ under '
@@ -1119,3 +1205,5 @@ def check(src, rep, tier):
     rep.guard('C11.R8', r8b_value_texts, src)
     rep.need('C11.R7', 15)
     rep.guard('C11.R7', r7_opening_a_view, src)
+    rep.need('C11.R10', 2)
+    rep.guard('C11.R10', r10_value_factory, src)
